@@ -34,6 +34,47 @@ use yv_harness::vsh::{self, Outcome, RunOpts, State, VEnv};
 /// This file is also picked up by cargo as a binary of its own.
 pub fn main() {}
 
+/// Kills the harness when one run of the real code never returns (an endless
+/// loop inside a single poll cannot be interrupted from the inside): the
+/// driver then reports the broken run instead of waiting for its own timeout.
+pub struct Watchdog {
+    progress: Arc<std::sync::atomic::AtomicU64>,
+    current: Arc<std::sync::Mutex<String>>,
+}
+
+impl Watchdog {
+    pub fn start(limit: std::time::Duration) -> Watchdog {
+        let progress = Arc::new(std::sync::atomic::AtomicU64::new(0));
+        let current = Arc::new(std::sync::Mutex::new(String::new()));
+        let (p2, c2) = (Arc::clone(&progress), Arc::clone(&current));
+        std::thread::spawn(move || {
+            let mut last = p2.load(Ordering::SeqCst);
+            let mut since = std::time::Instant::now();
+            loop {
+                std::thread::sleep(std::time::Duration::from_millis(500));
+                let now = p2.load(Ordering::SeqCst);
+                if now != last {
+                    last = now;
+                    since = std::time::Instant::now();
+                } else if since.elapsed() > limit {
+                    let what = c2.lock().map(|s| s.clone()).unwrap_or_default();
+                    eprintln!("harness: no progress for {limit:?}; the code under test does not return on:\n{what}");
+                    std::process::exit(3);
+                }
+            }
+        });
+        Watchdog { progress, current }
+    }
+    /// Call before every run of the code under test.
+    pub fn tick(&self, what: &str) {
+        self.progress.fetch_add(1, Ordering::SeqCst);
+        if let Ok(mut c) = self.current.lock() {
+            c.clear();
+            c.push_str(what);
+        }
+    }
+}
+
 pub struct WakeFlag(AtomicBool);
 
 impl Wake for WakeFlag {
